@@ -48,6 +48,8 @@ def build_aut(inp):
             A.add_edges([(e[1], e[2], e[3])])
         elif e[0] == "del" and e[1] in A.vertices():
             A.delete_vertex(e[1])
+        elif e[0] == "rec":
+            A.recurrent(inplace=True)
     return A
 
 
@@ -63,11 +65,21 @@ def edited_graph(inp):
             g.setdefault(e[2], {})
             g[e[1]][e[3]] = e[2]
         elif e[0] == "del" and e[1] in g:
-            del g[e[1]]
-            for es in g.values():
-                for lab in [l for l, w in es.items() if w == e[1]]:
-                    del es[lab]
+            _drop(g, e[1])
+        elif e[0] == "rec":
+            while True:
+                dead = [v for v in g if not g[v] or not any(v in es.values() for es in g.values())]
+                if not dead:
+                    break
+                _drop(g, dead[0])
     return g, list(inp["aut"]["starts"])
+
+
+def _drop(g, v):
+    del g[v]
+    for es in g.values():
+        for lab in [l for l, w in es.items() if w == v]:
+            del es[lab]
 
 
 def final_json(A):
@@ -77,21 +89,33 @@ def final_json(A):
 
 
 def rand_edits(rng, j):
-    """a short history of add_edges / delete_vertex on top of the constructed automaton (deterministic stays deterministic)"""
+    """a short history of add_edges (new edges, parallel edges between already connected states), delete_vertex and
+    recurrent() on top of the constructed automaton (a deterministic automaton stays deterministic)"""
     k = nstates(j)
-    labels = sorted(set(labels_of(j))) or ["a"]
+    labels = sorted(set(labels_of(j)) - {""}) or ["a"]
     used = {(v, l) for v, es in j["graph"] for l, _ in es}
+    pairs = [(v, w) for v, es in j["graph"] for _, w in es]
     edits = []
     for _ in range(rng.randint(1, 4)):
-        if rng.random() < 0.35 and k > 1:
+        r = rng.random()
+        if r < 0.2 and k > 1:
             v = rng.randrange(k)
             if v not in j["starts"]:
                 edits.append(["del", v])
                 used = {(t, l) for (t, l) in used if t != v}
+                pairs = [(t, h) for (t, h) in pairs if t != v and h != v]
                 continue
-        t, h, l = rng.randrange(k + 1), rng.randrange(k + 1), rng.choice(labels + ["a", "b"])
-        if (t, l) not in used and l:
+        if r < 0.3:
+            edits.append(["rec"])
+            continue
+        if pairs and r < 0.65:
+            t, h = rng.choice(pairs)            # a parallel edge
+        else:
+            t, h = rng.randrange(k + 1), rng.randrange(k + 1)
+        l = rng.choice(labels + ["a", "b", "c"])
+        if (t, l) not in used:
             used.add((t, l))
+            pairs.append((t, h))
             edits.append(["add", t, h, l])
     return edits
 
@@ -149,13 +173,15 @@ def letters_in(j):
     return out or ["a"]
 
 
-def rep_spec_for(rng, j, n=None, drop=False):
+def rep_spec_for(rng, j, n=None, drop=False, ring="Q"):
     names = letters_in(j)
     if drop and len(names) > 1:
         names = names[:-1]       # a label letter without a matrix: KeyError on both sides
     n = n or rng.choice([1, 2, 2, 3])
-    return H.rand_spec(rng, ring="Q", simple=True, n=n, names=names, reassign=False,
-                       kind=rng.choice(["uni", "orth", "diag", "dyadic"]))
+    # generators assigned in random order with mixed dtypes (float then int, complex then real, ...)
+    spec = H.rand_spec(rng, ring=ring, simple=True, n=n, names=names, reassign=rng.random() < 0.2,
+                       kind=rng.choice(["uni", "orth", "diag", "dyadic"]), dtmix=rng.random() < 0.5)
+    return H.no_int32(spec)
 
 
 def branching(j):
@@ -448,7 +474,7 @@ def gen_paths(rng, n):
         inp["calls"] = [c]
         lab = {"graph": inp["aut"]["graph"] + [[0, [[e[3], 0]]] for e in inp.get("edits", []) if e[0] == "add"],
                "starts": inp["aut"]["starts"]}
-        inp["spec"] = rep_spec_for(rng, lab)
+        inp["spec"] = rep_spec_for(rng, lab, ring="C" if rng.random() < 0.25 else "Q")
         yield inp
 
 
